@@ -98,6 +98,24 @@ class Repo:
             for n in tree.body:
                 self._top(m, n)
         self._mro = {}
+        self.inlined = {}
+        self._inline_new_helpers()
+
+    def _inline_new_helpers(self):
+        """functions that are not in the reviewed baseline table (helpers introduced by a later change) are analysed at
+        their call sites: their bodies are spliced into the callers (see engine/inliner.py)"""
+        import json
+        table = os.path.join(os.path.dirname(os.path.dirname(os.path.abspath(__file__))), "tables", "baseline_functions.json")
+        if os.environ.get("VERIF_NO_INLINE") or not os.path.exists(table):
+            return
+        base = set(json.load(open(table))["functions"])
+        new = {q for q in self.funcs if q not in base}
+        if not new:
+            return
+        from .astutil import resolve_helper, bind_args
+        from .inliner import inline_new_helpers
+        self.new_functions = sorted(new)
+        self.inlined = inline_new_helpers(self, new, resolve_helper, bind_args)
 
     def _top(self, m, n):
         if isinstance(n, ast.ImportFrom) and n.module:
